@@ -142,6 +142,9 @@ func (m *Model) instField(parent, ft *Type) *Type {
 
 // fieldByName finds a field by exact name.
 func fieldByName(d *Decl, name string) *SField {
+	if name == "_" {
+		return nil // blank fields have no name to be found by
+	}
 	for i := range d.Fields {
 		if d.Fields[i].Name == name {
 			return &d.Fields[i]
@@ -205,6 +208,9 @@ func (m *Model) StructInputs(it *Item) []SField {
 		for _, f := range d.Fields {
 			if it.Star && prevented(f.Tag) {
 				continue
+			}
+			if f.Name == "_" {
+				continue // a blank field cannot be set (nor named)
 			}
 			out = append(out, f)
 		}
